@@ -137,8 +137,8 @@ def check_C07(A: Analysis, tier):
                                 A.p.loc(ev.func, ev.node))
     rules.append(rd)
 
-    rg = Rule("C07", "C07.f", "a call releases only claims it took itself: no release is reached, on the normal path or on "
-              "a path carrying one of the package's own errors (a rejection), without the same claim being held", floor=6)
+    rg = Rule("C07", "C07.f", "a call releases only claims it took itself: no release is reached, on the normal path, on a "
+              "rejection path or on an I/O-fault path, without the same claim being held by this call", floor=6)
     for m in ("th", "mp"):
         for e in OBJ_ENTRIES + ["store_metadata", "delete_metadata"]:
             it = A.api(e, m)
@@ -150,8 +150,7 @@ def check_C07(A: Analysis, tier):
                 if r.get("held"):
                     continue
                 labs = r.get("handling") or ()
-                own = [l for l in labs if l in A.p.exc_classes]
-                if not labs or (labs and labs[-1] in A.p.exc_classes):
+                if True:
                     rg.fail(r["func"], r["op"].node, f"{showlock((r['cls'], r['key']))} is released on a path"
                             + (f" that carries {labs[-1]}" if labs else "") + f" of {e} on which this call never took it: "
                             "the claim removed belongs to another thread, whose exclusion is thereby lost", A.p.loc(r["func"], r["op"].node),
